@@ -6,7 +6,9 @@ package main
 
 import (
 	"bufio"
+	"bytes"
 	"context"
+	"encoding/gob"
 	"errors"
 	"fmt"
 	"os"
@@ -109,6 +111,7 @@ type seqRun struct {
 	nestedDone bool
 	cfg        map[string]string
 	mu         *sync.Mutex
+	slots      map[int][]byte
 }
 
 func (r *seqRun) flushEvents() string {
@@ -146,9 +149,21 @@ func parseTblLine(toks []string) *tbl {
 }
 
 func (r *seqRun) build() {
+	r.cache = otter.Must(r.options(true, ""))
+	r.chans = map[int]<-chan otter.RefreshResult[int, int]{}
+	r.bchans = map[int]<-chan []otter.RefreshResult[int, int]{}
+	r.nextRid = 1
+}
+
+// options builds the cache options from the script's configuration; the main cache reports its deletion
+// events, a load target (C19) does not.
+func (r *seqRun) options(main bool, maxOverride string) *otter.Options[int, int] {
 	cfg := r.cfg
 	o := &otter.Options[int, int]{}
 	b := strings.Split(cfg["bound"], ":")
+	if maxOverride != "" && maxOverride != "same" && len(b) == 2 {
+		b[1] = maxOverride
+	}
 	switch b[0] {
 	case "size":
 		n, _ := strconv.Atoi(b[1])
@@ -187,11 +202,17 @@ func (r *seqRun) build() {
 		n, _ := strconv.Atoi(c)
 		o.InitialCapacity = n
 	}
-	c0, _ := strconv.ParseInt(cfg["clock0"], 10, 64)
-	r.clock = &manualClock{now: c0}
+	if main {
+		c0, _ := strconv.ParseInt(cfg["clock0"], 10, 64)
+		r.clock = &manualClock{now: c0}
+	}
 	o.Clock = r.clock
 	o.Logger = nopLogger{}
 	o.StatsRecorder = stats.NewCounter()
+	if !main {
+		o.Executor = func(fn func()) { fn() }
+		return o
+	}
 	r.deferred = cfg["exec"] == "deferred"
 	if r.deferred {
 		o.Executor = func(fn func()) { r.queue = append(r.queue, fn) }
@@ -204,10 +225,7 @@ func (r *seqRun) build() {
 	o.OnDeletion = func(e otter.DeletionEvent[int, int]) {
 		r.events = append(r.events, fmt.Sprintf("D:%d:%d:%s", e.Key, e.Value, e.Cause))
 	}
-	r.cache = otter.Must(o)
-	r.chans = map[int]<-chan otter.RefreshResult[int, int]{}
-	r.bchans = map[int]<-chan []otter.RefreshResult[int, int]{}
-	r.nextRid = 1
+	return o
 }
 
 func errTok(err error) string {
@@ -607,6 +625,46 @@ func (r *seqRun) execSimple(t []string) {
 	case "stats":
 		s := c.Stats()
 		r.emit("op %s => %d %d %d %d %d %d", name, s.Hits, s.Misses, s.LoadSuccesses, s.LoadFailures, s.Evictions, s.EvictionWeight)
+	case "save":
+		var buf bytes.Buffer
+		err := otter.SaveCacheTo(c, &buf)
+		if r.slots == nil {
+			r.slots = map[int][]byte{}
+		}
+		r.slots[atoi(t[1])] = append([]byte{}, buf.Bytes()...)
+		// decode what was written (the standard gob decoder is the reference reader)
+		dec := gob.NewDecoder(bytes.NewReader(buf.Bytes()))
+		var mx uint64
+		var parts []string
+		if derr := dec.Decode(&mx); derr == nil {
+			for {
+				var e otter.Entry[int, int]
+				if derr := dec.Decode(&e); derr != nil {
+					break
+				}
+				parts = append(parts, fmt.Sprintf("%d:%d:%d:%d:%d", e.Key, e.Value, e.Weight, e.ExpiresAtNano, e.RefreshableAtNano))
+			}
+		}
+		r.emit("op %s => %s max=%d %s", name, errTok(err), mx, strings.Join(parts, ","))
+	case "loadfrom":
+		// loadfrom <slot> <max|same>: a fresh cache of the same configuration (optionally another maximum)
+		target := otter.Must(r.options(false, t[2]))
+		err := otter.LoadCacheFrom(target, bytes.NewReader(r.slots[atoi(t[1])]))
+		target.CleanUp()
+		var parts []string
+		keys := []int{}
+		for k := range target.Keys() {
+			keys = append(keys, k)
+		}
+		sort.Ints(keys)
+		for _, k := range keys {
+			if e, ok := target.GetEntryQuietly(k); ok {
+				parts = append(parts, fmt.Sprintf("%d:%d:%d:%d:%d", e.Key, e.Value, e.Weight, e.ExpiresAtNano, e.RefreshableAtNano))
+			}
+		}
+		tm := target.GetMaximum()
+		target.StopAllGoroutines()
+		r.emit("op %s => %s max=%d %s", name, errTok(err), tm, strings.Join(parts, ","))
 	case "quiesce":
 		r.emit("quiesce")
 	default:
